@@ -125,10 +125,8 @@ func textRT[T any, P textPtr[T]](name string, v, other T, member bool, same func
 		dst := other
 		err = P(&dst).UnmarshalText(tx)
 		if err != nil {
-			if member {
-				return pbt.Failf("text:"+name, "%s: UnmarshalText(%q) (the text of valid value %v) failed: %v", name, tx, v, err)
-			}
-			return nil
+			// Marshal(Unmarshal(Marshal(v))) == Marshal(v) is stated for every v: the decoder reads what the encoder writes
+			return pbt.Failf("text:"+name, "%s: UnmarshalText(%q), the text of value %v (documented member: %v), failed: %v", name, tx, v, member, err)
 		}
 		if member && !same(dst, v) {
 			return pbt.Failf("text:"+name, "%s: UnmarshalText(MarshalText(%v) = %q) = %v (receiver was pre-set to %v)", name, v, tx, dst, other)
@@ -148,10 +146,7 @@ func textRT[T any, P textPtr[T]](name string, v, other T, member bool, same func
 		}
 		w := wrap{other}
 		if err := json.Unmarshal(jb, &w); err != nil {
-			if member {
-				return pbt.Failf("json:"+name, "%s: json.Unmarshal(%s) failed: %v", name, jb, err)
-			}
-			return nil
+			return pbt.Failf("json:"+name, "%s: json.Unmarshal(%s), the output of json.Marshal for %v (documented member: %v), failed: %v", name, jb, v, member, err)
 		}
 		if member && !same(w.V, v) {
 			return pbt.Failf("json:"+name, "%s: json round trip of %v via %s gave %v", name, v, jb, w.V)
@@ -218,10 +213,8 @@ var intKinds = map[string]struct {
 			}
 			d := o
 			if err := d.UnmarshalJSON(jb); err != nil {
-				if memberMetering[uint16(u)] {
-					return pbt.Failf("json:meta.MeteringMode", "UnmarshalJSON(%s) failed for member %d: %v", jb, u, err)
-				}
-				return nil
+				// (for every v: what the encoder writes, the decoder reads)
+				return pbt.Failf("json:meta.MeteringMode", "UnmarshalJSON(%s), the output of MarshalJSON(%d), failed: %v", jb, u, err)
 			}
 			if jb2, _ := d.MarshalJSON(); !bytes.Equal(jb, jb2) || memberMetering[uint16(u)] && d != v {
 				return pbt.Failf("json:meta.MeteringMode", "UnmarshalJSON(MarshalJSON(%d) = %s) = %d", u, jb, d)
